@@ -157,6 +157,38 @@ def forward_checks(rep, fnd, pid, tier):
                         rep.violation("ScatLayerj2 returns a negative magnitude channel at %s" % (cfg,), case)
                     else:
                         n_ok += 1
+    # ---- many channels / larger batches: the channel bookkeeping has to be band-major over ALL C (stacked scattering layers
+    # see 21, 147, ... channels), so a few wide inputs are compared channel by channel as well
+    wide = [("ScatLayer", 17, 2), ("ScatLayer", 40, 1), ("ScatLayer", 2, 5), ("ScatLayerj2", 17, 1), ("ScatLayerj2", 3, 3)]
+    if tier != "quick":
+        wide += [("ScatLayer", 147, 1), ("ScatLayerj2", 33, 2)]
+    for k, (name, C, N) in enumerate(wide):
+        biort, qshift = FAMILIES[k % len(FAMILIES)]
+        b = biases[(k + 1) % 4]
+        lay = pw.ScatLayer(biort=biort, magbias=b) if name == "ScatLayer" else pw.ScatLayerj2(biort=biort, qshift=qshift, magbias=b)
+        x = rng.standard_normal((N, C, 8, 8))
+        cfg = dict(layer=name, biort=biort, qshift=qshift, H=8, W=8, C=C, N=N, magbias=b, input="gaussian-wide")
+        case = {"api": name, "check": "scat_forward", "cfg": cfg}
+        rep.validated()
+        rep.nontriv(("scat_wide", name, C, N))
+        try:
+            z = lay(torch.tensor(x)).numpy()
+        except Exception as e:   # noqa
+            rep.violation("%s raised %r at %s" % (name, e, cfg), dict(case, observed=repr(e)))
+            continue
+        good = True
+        for n in range(N):
+            want = ref_scat1(x[n], biort, b, False) if name == "ScatLayer" else ref_scat2(x[n], biort, qshift, b)
+            if z[n].shape != want.shape or not (np.abs(z[n] - want).max() <= 1e-9 * (np.abs(x).max() * 64 + b)):
+                bad = ""
+                if z[n].shape == want.shape:
+                    kk = int(np.argmax(np.abs(z[n] - want).reshape(want.shape[0], -1).max(1)))
+                    bad = "; first/worst wrong output channel %d (band %d, input channel %d)" % (kk, kk // C, kk % C)
+                rep.violation("%s with %d channels, batch %d differs from the reference composition channel by channel: "
+                              "shape %s vs %s%s" % (name, C, N, z[n].shape, want.shape, bad), case)
+                good = False
+                break
+        n_ok += good
     # ---- other sizes: documented shapes, non-negativity, never raise
     for H in range(2, 20):
         for W in (2, 3, 8, 13):
